@@ -1814,6 +1814,127 @@ int64_t sum_of(const std::vector<Got> &got, const std::string &key)
 }
 }  // namespace
 
+// ================================================================================================
+// Totals at the edge of the value range.  The histories above keep every value below 2^40 so that the model's
+// sums are exact in int64 and double alike; here an integer counter / up-down counter is driven so that the
+// running total of its single series lands EXACTLY on INT64_MAX (or INT64_MIN for the up-down counter) - still
+// representable, so every measurement still has to be reported exactly once - in 1..5 generated steps with
+// collections by a delta and a cumulative reader in between.  (Seeded C06-m12: an overflow guard with >= for >
+// dropped the measurement that reached the limit.)
+VH_TARGET(sum_limits, 3,
+          "integer counter / up-down counter whose running total is driven exactly onto INT64_MAX / INT64_MIN in 1..5 "
+          "Add calls (every Add overload without attributes and with an attribute set) with collections by a delta and "
+          "a cumulative reader in between; non-trivial when the limit is reached within an interval that holds an "
+          "earlier measurement, or in several steps; distinct = distinct (kind, limit, steps, collections) text")
+{
+  vh::Reader &rd = c.rd;
+  const bool updown  = rd.coin();
+  const bool to_min  = updown && rd.coin();
+  const bool with_attrs = rd.coin();
+  const int64_t limit = to_min ? INT64_MIN : INT64_MAX;
+  unsigned nsteps = 1 + rd.below(5);
+  // the steps: all but the last are drawn (same sign as the limit, never overshooting), the last one closes the gap
+  std::vector<int64_t> steps;
+  int64_t total = 0;
+  for (unsigned i = 0; i + 1 < nsteps; ++i)
+  {
+    // >= 0, distance still to go; |INT64_MIN| does not fit, so from 0 one unit is left for the closing step
+    int64_t room = !to_min ? limit - total : total == 0 ? INT64_MAX : total - limit;
+    int64_t mag = 0;
+    switch (rd.weighted({3, 3, 2, 2}))
+    {
+      case 0:
+        mag = 1 + static_cast<int64_t>(rd.below(9));
+        break;
+      case 1:
+        mag = room / 2;
+        break;
+      case 2:
+        mag = room - 1 - static_cast<int64_t>(rd.below(4));
+        break;
+      default:
+        mag = static_cast<int64_t>(rd.u64() >> 2);
+        break;
+    }
+    if (mag < 0)
+      mag = 0;
+    if (mag > room - 1)
+      mag = room > 0 ? room - 1 : 0;
+    int64_t v = to_min ? -mag : mag;
+    steps.push_back(v);
+    total += v;
+  }
+  steps.push_back(limit - total);  // exact, no overflow: total lies between 0 and the limit
+  std::vector<bool> collect_after(steps.size());
+  for (size_t i = 0; i < steps.size(); ++i)
+    collect_after[i] = rd.chance(35);
+  std::string text = std::string(updown ? "UpDownCounter<int64>" : "Counter<uint64>") + " to " +
+                     (to_min ? "INT64_MIN" : "INT64_MAX") + (with_attrs ? " {k0=1}" : " {}") + ":";
+  for (size_t i = 0; i < steps.size(); ++i)
+    text += " Add(" + std::to_string(steps[i]) + ")" + (collect_after[i] ? " Collect" : "");
+  c.note(text + " Collect\n");
+  c.tag(to_min ? "to-INT64_MIN" : updown ? "updown-to-INT64_MAX" : "counter-to-INT64_MAX");
+  c.tag("steps-" + std::to_string(steps.size()));
+  c.nontrivial = steps.size() >= 2;
+
+  Fixed f;
+  make_fixed(f, std::unique_ptr<sdkm::ViewRegistry>(new sdkm::ViewRegistry), {0, 1});
+  auto meter = f.provider->GetMeter("m0", "1.0", "");
+  nostd::unique_ptr<opentelemetry::metrics::Counter<uint64_t>> ctr;
+  nostd::unique_ptr<opentelemetry::metrics::UpDownCounter<int64_t>> ud;
+  if (updown)
+    ud = meter->CreateInt64UpDownCounter("a", "", "");
+  else
+    ctr = meter->CreateUInt64Counter("a", "", "");
+  int64_t recorded = 0, delta_sum = 0;
+  auto collect_both = [&](const char *when) {
+    bool ok = false;
+    std::string err;
+    auto gd = run_collect(*f.readers[0], &ok, &err);
+    VH_CHECK(c, ok && err.empty(), "delta reader: " << err);
+    // sum_of adds int64 values; the partial sums stay between 0 and the limit
+    delta_sum += sum_of(gd, "m0/a");
+    VH_CHECK(c, delta_sum == recorded, when << ": the delta points handed to the delta reader add up to " << delta_sum
+                                            << " but " << recorded << " was recorded");
+    auto gc = run_collect(*f.readers[1], &ok, &err);
+    VH_CHECK(c, ok && err.empty(), "cumulative reader: " << err);
+    VH_CHECK(c, sum_of(gc, "m0/a") == recorded, when << ": the cumulative reader reports " << sum_of(gc, "m0/a") << " but "
+                                                     << recorded << " was recorded");
+  };
+  for (size_t i = 0; i < steps.size(); ++i)
+  {
+    int64_t v = steps[i];
+    unsigned form = static_cast<unsigned>((i + steps.size()) % 2);
+    if (updown)
+    {
+      if (with_attrs)
+        form ? ud->Add(v, {{"k0", 1}}) : ud->Add(v, {{"k0", 1}}, opentelemetry::context::Context{});
+      else
+        form ? ud->Add(v) : ud->Add(v, opentelemetry::context::Context{});
+    }
+    else
+    {
+      uint64_t u = static_cast<uint64_t>(v);
+      if (with_attrs)
+        form ? ctr->Add(u, {{"k0", 1}}) : ctr->Add(u, {{"k0", 1}}, opentelemetry::context::Context{});
+      else
+        form ? ctr->Add(u) : ctr->Add(u, opentelemetry::context::Context{});
+    }
+    recorded += v;
+    if (collect_after[i] && i + 1 < steps.size())
+    {
+      collect_both("after an intermediate step");
+      c.tag("collect-between-steps");
+    }
+    else if (i + 1 == steps.size() && i > 0 && !collect_after[i - 1])
+      c.tag("limit-reached-within-an-interval-holding-earlier-measurements");
+  }
+  collect_both("after the total reached the limit");
+  ctr.reset();
+  ud.reset();
+  f.provider->Shutdown();
+}
+
 VH_TARGET(f7_witness, 1, "fixed case of finding F7 (not part of the search)")
 {
   c.note("one delta reader; counter a; Add(1); Collect; Add(2); Collect: the second interval must start where the first ended\n");
